@@ -14,12 +14,13 @@ structure ValidBlock (c : Cand) (f : Facts) : Prop where
   /-- an acceptable kind: a send or receive of a user account, or the receive of a contract account -/
   kind : (c.b.emb = false ∧ (c.b.bt = Gen.BlockTypeUserSend ∨ c.b.bt = Gen.BlockTypeUserReceive)) ∨
          (c.b.emb = true ∧ c.b.bt = Gen.BlockTypeContractReceive)
-  /-- its hash matches its content -/
+  /-- its hash matches its content (the content the node keeps: canonical call data, regenerated descendants) -/
   hash_matches : c.b.hz = false ∧ f.hok = true
   /-- a user block is signed by the key that owns the account and carries no descendant blocks -/
   user_signed : c.b.emb = false →
     c.b.nsig ≠ 0 ∧ c.b.npk ≠ 0 ∧ f.sok = true ∧ f.pka = true ∧ c.descs = []
-  /-- contract blocks carry no key and are reproduced by the receiver (same hash and same changes-hash) -/
+  /-- contract blocks carry no key and are reproduced by the receiver: the regenerated block has the same hash and
+      the same changes-hash, and its descendant blocks are the ones that are kept (`regenerated_descendants_adopted`) -/
   contract_reproduced : c.b.emb = true → c.b.npk = 0 ∧ c.b.nsig = 0 ∧ f.regen = some (true, true)
   /-- it extends the account's chain by exactly one height from its stated predecessor, which is a tip the node
       holds for this account (the confirmed frontier or a pooled block) -/
@@ -54,9 +55,7 @@ theorem verify_sound (c : Cand) (f : Facts) (h : verifyBlock c f = .ok ()) : Val
   -- verifier.AccountBlockTransaction
   simp only [verifyTransaction, txChecks, List.map, firstErr_cons, firstErr_nil, chk_ok, and_true] at htx
   obtain ⟨-, -, hhash, hsig, hprod, hdesc⟩ := htx
-  simp only [txHash, firstErr_cons, firstErr_nil, chk_ok, and_true] at hhash
-  simp only [txDescendantBlocks, firstErr_cons, chk_ok] at hdesc
-  have hdesc := hdesc.1
+  obtain ⟨hhz, hhok⟩ := txHash_ok hhash
   -- kinds
   have hkind : (c.b.emb = false ∧ (c.b.bt = Gen.BlockTypeUserSend ∨ c.b.bt = Gen.BlockTypeUserReceive)) ∨
       (c.b.emb = true ∧ c.b.bt = Gen.BlockTypeContractReceive) := by
@@ -67,16 +66,12 @@ theorem verify_sound (c : Cand) (f : Facts) (h : verifyBlock c f = .ok ()) : Val
       rcases hbtE he with h | h
       · exact h
       · exact absurd h hcs
-  refine ⟨hkind, ⟨hhash.1, by simpa using hhash.2⟩, ?_, ?_, ⟨hstore, hh0, ?_⟩, ⟨hmaz, hmaon, ?_, ?_⟩, ?_, ?_⟩
+  refine ⟨hkind, ⟨hhz, hhok⟩, ?_, ?_, ⟨hstore, hh0, ?_⟩, ⟨hmaz, hmaon, ?_, ?_⟩, ?_, ?_⟩
   · -- user_signed
     intro he
     simp only [txSignature, he, Bool.false_eq_true, if_false, firstErr_cons, firstErr_nil, chk_ok, and_true] at hsig
     simp only [txProducer, he, Bool.false_eq_true, if_false, chk_ok] at hprod
-    have hnd : c.descs = [] := by
-      have : isContractReceive c.b = false := by simp [isContractReceive, he]
-      simp only [this, Bool.not_false, Bool.true_and] at hdesc
-      have : ¬ c.descs.length > 0 := by simpa using hdesc
-      exact List.eq_nil_of_length_eq_zero (by omega)
+    have hnd : c.descs = [] := txDescendantBlocks_user_ok hdesc he
     exact ⟨by simpa using hsig.1, by simpa using hsig.2.1, by simpa using hsig.2.2, by simpa using hprod, hnd⟩
   · -- contract_reproduced
     intro he
@@ -103,11 +98,7 @@ theorem verify_sound (c : Cand) (f : Facts) (h : verifyBlock c f = .ok ()) : Val
       rw [ha, hb]
   · -- extends_chain, user part
     intro he
-    have hnd : c.descs = [] := by
-      have : isContractReceive c.b = false := by simp [isContractReceive, he]
-      simp only [this, Bool.not_false, Bool.true_and] at hdesc
-      have : ¬ c.descs.length > 0 := by simpa using hdesc
-      exact List.eq_nil_of_length_eq_zero (by omega)
+    have hnd : c.descs = [] := txDescendantBlocks_user_ok hdesc he
     refine ⟨?_, ⟨hh1, ?_⟩, ?_⟩
     · simp only [Cand.prevHeight, hnd, heightMinus1, hh0, if_false]; omega
     · intro hp
@@ -247,21 +238,45 @@ example : ValidBlock honestSend honestFacts := verify_sound _ _ honest_user_send
 theorem amount_bound_exact :
     amountTooBig (2 ^ 255 - 1) = false ∧ amountTooBig (2 ^ 255) = true ∧ amountTooBig (-(2 ^ 255)) = true := by decide
 
-/-! ### negative witness: descendant content is not pinned
+/-! ### descendant blocks of a delivered contract receive
 
-The property says contract blocks are "reproduced exactly by the receiver". The code compares the regenerated
-block's hash and changes-hash with the received ones; a descendant block enters that hash only through its own
-*recorded* hash, which nobody recomputes. So two candidates that differ in a descendant's amount (recorded hashes
-equal, hence the same oracle facts) are both accepted. `contract_reproduced` above is therefore "same hash and
-same changes-hash", not "same content"; the stream's monitor exhibits the concrete block (known finding). -/
+The parent's hash covers descendant blocks only through their *recorded* hashes, which nobody recomputes. Until fix
+48b97c9 a contract receive with altered descendant content (same recorded hashes) was accepted AND stored (finding
+F20b, found by this stream's monitor). Now `VM.applyBlock` keeps the regenerated descendant blocks
+(`regenerated_descendants_adopted`), and in the decision the delivered descendants matter only through the link they
+state (the first one's previous) and through acknowledging the parent's momentum: -/
+
+/-- replacing the delivered descendant blocks of a contract receive by anything that states the same predecessor and
+    is equally uniform about the acknowledged momentum does not change verdict or reason -/
+theorem delivered_descendant_content_irrelevant (c : Cand) (descs' : List Desc) (f : Facts)
+    (hcr : isContractReceive c.b = true)
+    (hph : ({ c with descs := descs' } : Cand).prevHeight = c.prevHeight)
+    (hpz : ({ c with descs := descs' } : Cand).prevHashZero = c.prevHashZero)
+    (hma : (descs'.map (·.maSame)).any (fun same => !same) = (c.descs.map (·.maSame)).any (fun same => !same)) :
+    verifyBlock { c with descs := descs' } f = verifyBlock c f := by
+  have hsubj : ({ c with descs := descs' } : Cand).subj f =
+      { c.subj f with descMaSame := descs'.map (·.maSame) } := by
+    simp only [Cand.subj, Cand.prevIsZeroHH, hph, hpz]
+  have hall : abAll (({ c with descs := descs' } : Cand).subj f) f = abAll (c.subj f) f := by
+    rw [hsubj]
+    simp only [abAll, allChecks, List.map, version, chainIdentifier, blockType, amounts, powCheck, previous,
+      momentumAcknowledged, fromHash, sequencer, hma, Cand.subj]
+  simp only [verifyBlock, supervisorStages, List.map, verifyAccountBlock, verifyTransaction, txChecks, getContext,
+    vmApplyBlock, txHash, txSignature, txProducer, txDescendantBlocks, hcr, hall, if_true]
+
+/-- both the honest delivery and one with an altered descendant amount are accepted … -/
 def alteredContractReceive : Cand :=
   { b := honestContractReceive.b,
     descs := honestContractReceive.descs.map (fun d => { d with blk := { d.blk with amt := some 1 } }) }
 
-theorem descendant_content_not_pinned :
-    ∃ c₁ c₂ : Cand, ∃ f : Facts, c₁ ≠ c₂ ∧ c₁.b = c₂.b ∧
-      verifyBlock c₁ f = .ok () ∧ verifyBlock c₂ f = .ok () := by
-  refine ⟨honestContractReceive, alteredContractReceive, honestContractFacts, by decide, rfl, by decide, by decide⟩
+theorem altered_descendant_delivery_accepted :
+    alteredContractReceive ≠ honestContractReceive ∧
+    verifyBlock alteredContractReceive honestContractFacts = .ok () := by
+  refine ⟨by decide, by decide⟩
+
+/-- … and what is stored are the regenerated descendants: the tree's `VM.applyBlock` assigns
+    `block.DescendantBlocks = generated.DescendantBlocks` in the contract-receive case (AST fact) -/
+theorem regenerated_descendants_adopted : Gen.vmAdoptsRegeneratedDescendants = true := by decide
 
 /-! ### ties to the working tree (regenerated facts) -/
 
